@@ -48,13 +48,16 @@ POOLS = {
                  "lenient": ["2020-01-02", "20200102T030405"], "invalid": ["nope", 3, False, "2020-01-02T25:00:00", {}]},
     "uuid": {"valid": [U1], "lenient": [U1.upper(), U1.replace("-", ""), "{" + U1 + "}", "urn:uuid:" + U1],
              "invalid": ["xyz", 3, True, U1[:-1], []]},
-    "int": {"valid": [0, -5, 2**40, 7], "lenient": ["4", "4.0", 4.0, "-3"], "invalid": ["x", 1.5, True, [], "1.5", {}],
+    "int": {"valid": [0, -5, 2**40, 7, 2**53 + 1, 2**63 - 1, -(2**63), 10**30], "lenient": ["4", "4.0", 4.0, "-3"], "invalid": ["x", 1.5, True, [], "1.5", {}],
             "nonfinite": ["inf", "nan", float("inf")]},
     "num": {"valid": [1.5, 3, -0.25, 0], "lenient": ["5.5", "5", "-1e3"], "invalid": ["x", True, [], {}],
             "nonfinite": ["inf", "nan", float("inf"), "1e999"]},
     "bool": {"valid": [True, False], "lenient": ["true", "False", "TRUE"], "invalid": ["yes", 1, 0, "1", [], 1.0]},
     "enum_str": {"valid": ["aa", "b b"], "lenient": [], "invalid": ["cc", 1, "AA", True, ["aa"], ""]},
     "enum_int": {"valid": [1, -2], "lenient": [1.0], "invalid": [3, "1", 1.5, []], "boolish": [True]},
+    # the same enums listing null as well (the generator turns those into a union of null and the enum)
+    "enum_str_null": {"valid": ["aa", "b b"], "lenient": [], "invalid": ["cc", 1, ["aa"]]},
+    "enum_int_null": {"valid": [1, -2], "lenient": [], "invalid": [3, "1", []]},
     "const": {"valid": ["fixed"], "lenient": [], "invalid": ["other", 1, True, []]},
     "union": {"valid": [3, True, -1, False], "lenient": ["4", "true", 4.0], "invalid": ["abc", 1.5, [], {}]},
     "any": {"valid": ["abc", 3, 1.5, True, [1, "x"], {"a": 1}, ""], "lenient": [], "invalid": [], "nonfinite": [float("inf")]},
@@ -67,10 +70,11 @@ POOLS = {
     "const_zero": {"valid": [0], "lenient": [0.0], "invalid": [False, "0", 1]},
 }
 HEADER_KINDS = {"str", "int", "num", "bool", "enum_str", "enum_int"}
+ENUM_KINDS = ("enum_str", "enum_int", "ref_enum", "enum_str_null", "enum_int_null")
 COOKIE_KINDS = {"str", "enum_str", "int", "num", "bool", "date", "uuid"}
 VIA_REF_KINDS = {"str", "date", "datetime", "uuid", "int", "num", "bool", "enum_str", "enum_int"}
 TWIN_DEFAULT = {"enum_str": ["aa", "b b"], "enum_int": [1, -2]}
-PARAM_KINDS = {"str", "date", "datetime", "uuid", "int", "num", "bool", "enum_str", "enum_int", "union", "ref_enum"}
+PARAM_KINDS = {"str", "date", "datetime", "uuid", "int", "num", "bool", "enum_str", "enum_int", "union", "ref_enum", "enum_str_null", "enum_int_null"}
 
 
 def cells():
@@ -85,7 +89,7 @@ def cells():
                         continue
                     if route == "cookie" and kind not in COOKIE_KINDS:
                         continue
-                    for literal in ((False, True) if kind in ("enum_str", "enum_int", "ref_enum") else (False,)):
+                    for literal in ((False, True) if kind in ENUM_KINDS else (False,)):
                         out.append({"kind": kind, "pool": pool, "value": v, "route": route, "literal": literal})
                         # the same cell with the default written on a wrapper around a $ref to the schema (allOf; oneOf for models)
                         if kind in VIA_REF_KINDS and route in ("model", "query", "header"):
@@ -142,6 +146,10 @@ def schema_for(kind, default):
         return {"type": "string", "enum": ["aa", "b b"], "default": default}, {}
     if kind == "enum_int":
         return {"type": "integer", "enum": [1, -2, 0], "default": default}, {}
+    if kind == "enum_str_null":
+        return {"type": "string", "enum": ["aa", "b b", None], "default": default}, {}
+    if kind == "enum_int_null":
+        return {"type": "integer", "enum": [1, -2, 0, None], "default": default}, {}
     if kind == "const":
         return {"const": "fixed", "default": default}, {}
     if kind == "const_int":
@@ -252,14 +260,19 @@ def expected_json(kind, v):
     if kind == "uuid":
         return str(uuid.UUID(v))
     if kind in ("int", "allof_override", "allof_untyped_first", "allof_untyped_last", "const_int", "const_zero"):
-        return int(float(v))
+        if isinstance(v, int) and not isinstance(v, bool):
+            return v           # exact: integers beyond 2**53 must not pass through a double
+        try:
+            return int(v)
+        except (TypeError, ValueError):
+            return int(float(v))
     if kind == "num":
         return float(v)
     if kind == "bool":
         return v if isinstance(v, bool) else v.lower() == "true"
     if kind == "str":
         return v if isinstance(v, str) else None
-    if kind == "enum_int":
+    if kind in ("enum_int", "enum_int_null"):
         return int(v)
     if kind == "union":
         if isinstance(v, str):
@@ -293,7 +306,7 @@ def type_ok(kind, got, literal) -> bool:
         return isinstance(got, dt.datetime)
     if kind == "uuid":
         return isinstance(got, uuid.UUID)
-    if kind in ("enum_str", "enum_int", "ref_enum"):
+    if kind in ENUM_KINDS:
         return (not isinstance(got, enum.Enum)) if literal else isinstance(got, enum.Enum)
     if kind in ("int", "allof_override", "allof_untyped_first", "allof_untyped_last", "const_int", "const_zero"):
         return isinstance(got, int) and not isinstance(got, bool)
@@ -553,6 +566,7 @@ def _encoded(ctx, site, pkg, res, route, kind, v, op):
             return
         text = q["pp"]
         skind = {"enum_str": {"k": "enum", "base": "str"}, "enum_int": {"k": "enum", "base": "int"},
+                 "enum_str_null": {"k": "enum", "base": "str"}, "enum_int_null": {"k": "enum", "base": "int"},
                  "ref_enum": {"k": "enum", "base": "str"}}.get(kind, {"k": kind})
         if kind == "union":
             skind = {"k": "bool"} if isinstance(v, bool) else {"k": "int"}
